@@ -6,6 +6,7 @@ import (
 	"github.com/relab/gorums"
 	"github.com/relab/hotstuff"
 	"github.com/relab/hotstuff/internal/proto/hotstuffpb"
+	"github.com/relab/hotstuff/internal/proto/kauripb"
 	"google.golang.org/protobuf/proto"
 	"google.golang.org/protobuf/reflect/protoreflect"
 )
@@ -47,6 +48,8 @@ func newPB(kind string) proto.Message {
 		return &hotstuffpb.TimeoutMsg{}
 	case "fetch":
 		return &hotstuffpb.BlockHash{}
+	case "contrib":
+		return &kauripb.Contribution{}
 	}
 	return nil
 }
